@@ -1065,6 +1065,7 @@ func callBuiltin(caller *frame, callpos token.Pos, fn *ssa.Builtin, args []value
 		for i := range spare {
 			spare[i] = zero(zt)
 		}
+		ex.markFreshSlice(res)
 		return res
 
 	case "copy": // copy([]T, []T) int or copy([]byte, string) int
@@ -1098,6 +1099,7 @@ func callBuiltin(caller *frame, callpos token.Pos, fn *ssa.Builtin, args []value
 
 	case "delete": // delete(map[K]value, K)
 		if m := args[0].(*omap); m != nil {
+			caller.i.x.specMapWrite(m)
 			m.delete(caller.i.x, args[1])
 		}
 		return nil
